@@ -185,8 +185,10 @@ def g_chunk(rng, t=None, huge=False):
     if t == 3:
         ng = rng.choice([0, 0, 1, 2, 3, rng.randrange(0, 40)])
         nd = rng.choice([0, 0, 1, 2, rng.randrange(0, 20)])
-        if huge:
+        if huge == 2:
             ng, nd = rng.choice([(16379, 0), (0, 16379), (8000, 8379), (10000, 6379)])
+        elif huge:
+            ng, nd = rng.choice([(1500, 0), (0, 1500), (800, 700)])
         return [3, f, g_int(rng, U32), g_int(rng, U32), [[g_int(rng, U16), g_int(rng, U16)] for _ in range(ng)],
                 [g_int(rng, U32) for _ in range(nd)]]
     if t in PARAMS:
@@ -204,7 +206,7 @@ def g_chunk(rng, t=None, huge=False):
     if t == 192:
         n = rng.choice([0, 1, 2, 3, rng.randrange(0, 60)])
         if huge:
-            n = 16381
+            n = 16381 if huge == 2 else 1500
         return [192, f, g_int(rng, U32), [[g_int(rng, U16), g_int(rng, U16)] for _ in range(n)]]
     n = g_len(rng, 400)
     if huge:
@@ -551,6 +553,12 @@ class C08(Check):
             "checksum-field boundaries, plus crafted self-consistent straddling bursts = K6); distinct by (case, "
             "output); non-trivial = accepted packet with >= 1 chunk, or a burst case, or a crc of >= 1 byte")
 
+    _tier = "quick"
+
+    def run(self, tier, seed, ncases=None):
+        self._tier = tier
+        return super().run(tier, seed, ncases)
+
     # ------------------------------------------------------------ generator
     def gen_case(self, rng, i):
         k = rng.random()
@@ -566,7 +574,10 @@ class C08(Check):
         if k < 0.38:
             m = rng.random()
             if m < 0.03:
-                c = g_chunk(rng, rng.choice([0, 3, 4, 192, 10]), huge=True)
+                # chunks at the 65535-byte limit; list-shaped ones (model cost is quadratic) at the limit only
+                # in the thorough tier and rarely
+                c = g_chunk(rng, rng.choice([0, 3, 4, 192, 10]),
+                            huge=2 if (self._tier == "thorough" and rng.random() < 0.004) else 1)
             elif m < 0.10:
                 c = g_bad_chunk(rng)
             else:
@@ -707,7 +718,7 @@ class C08(Check):
             if not bits or max(bits) - min(bits) >= 32 or max(bits) >= len(data) * 8 or not checksum_ok(data):
                 return None                     # precondition: valid packet, non-empty burst within a 32-bit window
             if impl_out[0] != 0:
-                return ("valid-packet-rejected", f"parse_packet rejects a packet with a correct checksum: {impl_out[0]}")
+                return None                     # precondition: the uncorrupted packet is one parse_packet accepts
             if impl_out[1][0] == -1:
                 return None
             kind = "accepted" if impl_out[1][0] == 0 else f"raised {impl_out[1][0]}"
